@@ -227,6 +227,7 @@ def clause_d(ctx, P):
 
 
 def run(ctx, P):
+    f4.check_service_selected_by_resolved_name(ctx, P, "C08e")
     clause_a(ctx, P)
     clause_b(ctx, P)
     clause_c(ctx, P)
